@@ -88,8 +88,14 @@ func validPool(p *Profile, sch *Schema, rng *rand.Rand, maxSize, ngen int) [][]b
 	for k := 0; k < 2; k++ {
 		arch := byte(k)
 		s := newStream(12+2*k, k == 1)
-		s.Def(0, arch, 0, []FieldDef{{0, 1, 0}, {1, 2, 0x84}}, nil)
-		s.Data(0, append([]byte{4}, wire(u16le(1), arch)...))
+		if k == 0 {
+			s.Def(0, arch, 0, []FieldDef{{0, 1, 0}, {1, 2, 0x84}}, nil)
+			s.Data(0, append([]byte{4}, wire(u16le(1), arch)...))
+		} else {
+			// manufacturer, product and number present and zero: zero is a value, not "unset"
+			s.Def(0, arch, 0, []FieldDef{{0, 1, 0}, {1, 2, 0x84}, {2, 2, 0x84}, {5, 2, 0x84}}, nil)
+			s.Data(0, []byte{4, 0, 0, 0, 0, 0, 0})
+		}
 		s.Def(1, arch, 20, []FieldDef{{253, 4, 0x86}, {3, 1, 2}}, nil)
 		for r := 0; r < 3; r++ {
 			s.Data(1, append(wire(u32le(0x39200000+uint32(r)), arch), byte(70+r)))
@@ -130,7 +136,7 @@ func runC10(c *Ctx) {
 		if s, ok := alone[string(b)]; ok {
 			return s
 		}
-		cl := p.runCall(0, "decode", b, plain, CallOpts{}, true)
+		cl := p.runCall(0, "decode", b, plain, CallOpts{UF: 1, UM: 1}, true)
 		js, _ := json.Marshal(cl.Ret.Files)
 		alone[string(b)] = string(js)
 		return string(js)
@@ -297,7 +303,10 @@ func runC10(c *Ctx) {
 		if len(all) > 3000 && len(ch) == 1 && ch[0] < 7 {
 			ch = []int{4096}
 		}
-		cl := run("chained", all, readScript{chunks: ch, cut: -1, fault: -1, withEOF: rng.Intn(2) == 0}, fmt.Sprintf("chain of %d, chunks %v", k, ch))
+		id++
+		cl := p.runCall(id, "chained", all, readScript{chunks: ch, cut: -1, fault: -1, withEOF: rng.Intn(2) == 0}, CallOpts{UF: 1, UM: 1}, true)
+		cl.Note = fmt.Sprintf("chain of %d, chunks %v", k, ch)
+		calls = append(calls, cl)
 		members[cl.ID] = chainMembers
 		if cl.Ret.Err == 0 && len(cl.Ret.Files) == k {
 			for j, m := range chainMembers {
